@@ -200,18 +200,27 @@ fn check_dwarf<'a>(ctx: &mut Ctx<'_>, what: &str, d: &Dwarf<R<'a>>, m: &Markers,
     expect_ptr_in(ctx, what, d.locations.lookup_offset_id(id(m, SectionId::DebugLocLists)), SectionId::DebugLocLists);
     expect_ptr_in(ctx, what, d.ranges.lookup_offset_id(id(ranges_m, SectionId::DebugRanges)), SectionId::DebugRanges);
     expect_ptr_in(ctx, what, d.ranges.lookup_offset_id(id(m, SectionId::DebugRngLists)), SectionId::DebugRngLists);
-    // Dwarf::lookup_offset_id routes every main section to its own id
-    for s in [
-        SectionId::DebugAbbrev,
-        SectionId::DebugInfo,
-        SectionId::DebugLine,
-        SectionId::DebugLineStr,
-        SectionId::DebugStr,
-        SectionId::DebugStrOffsets,
-        SectionId::DebugTypes,
-        SectionId::DebugAranges,
+    // Dwarf::lookup_offset_id ("call Reader::lookup_offset_id for each section") routes every
+    // section the Dwarf holds to its own id
+    for (s, mk) in [
+        (SectionId::DebugAbbrev, m),
+        (SectionId::DebugAddr, addr_m),
+        (SectionId::DebugInfo, m),
+        (SectionId::DebugLine, m),
+        (SectionId::DebugLineStr, m),
+        (SectionId::DebugStr, m),
+        (SectionId::DebugStrOffsets, m),
+        (SectionId::DebugTypes, m),
+        (SectionId::DebugAranges, m),
+        (SectionId::DebugMacinfo, m),
+        (SectionId::DebugMacro, m),
+        (SectionId::DebugNames, m),
+        (SectionId::DebugLoc, m),
+        (SectionId::DebugLocLists, m),
+        (SectionId::DebugRanges, ranges_m),
+        (SectionId::DebugRngLists, m),
     ] {
-        let r = d.lookup_offset_id(id(m, s)).map(|(sup, sid, off)| (sup, sid, off));
+        let r = d.lookup_offset_id(id(mk, s)).map(|(sup, sid, off)| (sup, sid, off));
         if r != Some((false, s, 0)) {
             ctx.violate("c17_routing", format!("{}: Dwarf::lookup_offset_id({}) = {:?}", what, s.name(), r));
         }
